@@ -295,6 +295,10 @@ func (b *bufferWriter) expectBody(r *http.Request) bool {
 }
 
 func (b *bufferWriter) Close() error {
+	// multibuf removes a spilled temporary file only through the reader
+	if rdr, err := b.buffer.Reader(); err == nil {
+		_ = rdr.Close()
+	}
 	return b.buffer.Close()
 }
 
